@@ -1,4 +1,76 @@
+(* C15 - the canonical model stays a well-formed tree under any sequence of API calls.
+   M = Model/Heap.v (step), S = Spec/ModelWF.v (WF, wf_b), triggers of the recorded findings =
+   Model/HeapTriggers.v, proofs = Proofs/C15/*.v, refutations = Findings/C15.v.
+
+   Full statement (false of the faithful model, see Findings/C15.v: eight call shapes break it):
+       forall h c, WF h -> WF (fst (step h c))
+       forall h c e, WF h -> single_element c = true -> snd (step h c) = ORaised e -> fst (step h c) = h
+   Proved: the same for every call whose `trigger` is None (atomicity: whose trigger is not 4),
+   with one call shape left open (Step.open_case: set_doc(doc) on an element that already has
+   children, i.e. attaching a whole detached tree; that case is covered by the correspondence runs
+   and by wf_b on the code's states only). *)
+From Coq Require Import List Arith Bool.
 From TT Require Import Proofs.C15.All.
+Import ListNotations.
+
+Theorem C15_wf_init : forall elems ndoc, elems_ok elems ndoc = true -> WF (init elems ndoc).
+Proof. exact init_WF. Qed.
+
+Theorem C15_wf_step_partial : forall h c,
+  WF h -> trigger h c = None -> open_case h c = false -> WF (fst (step h c)).
+Proof. exact step_WF. Qed.
+
+Theorem C15_reachable_partial : forall elems ndoc calls,
+  elems_ok elems ndoc = true -> admissible (init elems ndoc) calls = true -> WF (run (init elems ndoc) calls).
+Proof. exact reachable_WF. Qed.
+
+Theorem C15_atomic_partial : forall h c e,
+  WF h -> single_element c = true -> trigger h c <> Some 4 -> open_case h c = false ->
+  snd (step h c) = ORaised e -> fst (step h c) = h.
+Proof. exact step_atomic. Qed.
+
+(* the doubly linked child lists against the abstraction `children : element -> list element` *)
+Theorem C15_push_child_dll : forall h s c cs,
+  s < nnodes h -> c < nnodes h -> Children h s cs -> n_parent (nd h c) = None ->
+  Children (push_heap h s c) s (cs ++ [c]) /\
+  forall p l, p <> s -> Children h p l -> Children (push_heap h s c) p l.
+Proof. exact push_child_dll. Qed.
+Theorem C15_remove_child_dll : forall h s c a b,
+  s < nnodes h -> Children h s (a ++ c :: b) ->
+  Children (remove_heap h s c) s (a ++ b) /\
+  forall p l, p <> s -> Children h p l -> Children (remove_heap h s c) p l.
+Proof. exact remove_child_dll. Qed.
+
+(* acyclic in the usual sense: nobody is its own ancestor *)
+Theorem C15_acyclic : forall h i, WF h -> i < nnodes h -> ~ up h i i.
+Proof. exact WF_no_cycle. Qed.
+
+(* only values of the property's documented type pass validate (each font-family item included) *)
 Theorem C15_validate_sound : forall p v, validate p v = VTrue -> spec_valid p v = true.
 Proof. exact validate_sound. Qed.
+
+(* the executable checker that judges the dumped object graphs is sound for WF *)
+Theorem C15_wf_b_sound : forall h, wf_b h = true -> WF h.
+Proof. exact wf_b_sound. Qed.
+
+(* the hypotheses are satisfiable by non-trivial histories *)
+Example C15_example_history :
+  let elems := [(KBody, Some 0, None); (KDiv, Some 0, None); (KP, Some 0, None); (KSpan, Some 0, None);
+                (KRegion, Some 0, Some 1); (KRuby, Some 0, None); (KRb, Some 0, None); (KRt, Some 0, None)] in
+  let calls := [CPushChild 0 1; CPushChild 1 2; CPushChild 2 3; CPutRegion 0 4; CSetBody 0 (Some 0);
+                CSetRegion 2 (Some 4); CPushChildren 5 [6; 7]; CPushChild 2 5; CPushChild 3 2;
+                CSetStyle 3 (PValid PFontFamily) (Some (VTuple [FStr; FGeneric]));
+                CSetStyle 3 (PValid PFontFamily) (Some (VTuple [FOther])); CRemoveRegion 0 1; CRemove 3] in
+  elems_ok elems 1 = true /\ admissible (init elems 1) calls = true /\
+  n_region (nd (run (init elems 1) calls) 2) = None /\ n_parent (nd (run (init elems 1) calls) 5) = Some 2.
+Proof. vm_compute. repeat split. Qed.
+
+Print Assumptions C15_wf_init.
+Print Assumptions C15_wf_step_partial.
+Print Assumptions C15_reachable_partial.
+Print Assumptions C15_atomic_partial.
+Print Assumptions C15_push_child_dll.
+Print Assumptions C15_remove_child_dll.
+Print Assumptions C15_acyclic.
 Print Assumptions C15_validate_sound.
+Print Assumptions C15_wf_b_sound.
